@@ -78,6 +78,11 @@ def source_enums(src_root):
     return out
 
 
+def contains_key_type(ty):
+    """a type with Key among its generic arguments / tuple members: Option<Key>, Result<Option<Key>, Error>, (String, Key) ..."""
+    return bool(ty) and re.search(r"(^|[<(,\s&])(?:\w+::)*Key(?=[>),\s]|$)", ty) is not None
+
+
 class Flow:
     def __init__(self, label, sink, site, unit, path_index, detail=""):
         self.label, self.sink, self.site, self.unit, self.path_index, self.detail = label, sink, site, unit, path_index, detail
@@ -277,8 +282,8 @@ class PathTaint:
                         return lab
                 return None
             break
-        # 2. v contains a secret part: a Key-typed object, or an ancestor of a marked secret
-        if is_key_type(v.ty):
+        # 2. v contains a secret part: a Key-typed object (also wrapped: Option<Key>, Result<.. Key ..>), or an ancestor of a marked secret
+        if is_key_type(v.ty) or (contains_key_type(v.ty) and not v._kids):
             return "the key value"
         for (m, lab, guard) in self.marked:
             if is_part_of(m, v):
